@@ -176,7 +176,8 @@ type Args struct {
 	Minimise string
 	MinOut   string
 	Tree     string
-	Limit    int // override item count (tests)
+	Limit    int    // override item count (tests)
+	Skip     string // comma separated item indices a respawned worker must skip
 	Scratch  string
 }
 
@@ -190,7 +191,17 @@ func WorkerMain(d Driver, a *Args) int {
 	}
 	progress := filepath.Join(a.OutDir, fmt.Sprintf("w%d.progress", a.Worker))
 	pf, _ := os.Create(progress)
+	skip := map[int]bool{}
+	for _, f := range strings.Split(a.Skip, ",") {
+		if v, err := strconv.Atoi(f); err == nil {
+			skip[v] = true
+		}
+	}
 	for idx := a.Worker; idx < n; idx += a.Workers {
+		if skip[idx] {
+			ctx.Inc("items_skipped_resource_exhaustion", 1)
+			continue
+		}
 		if pf != nil {
 			// which item is in flight: if this process dies, the parent knows where
 			pf.WriteAt([]byte(fmt.Sprintf("%-12d %-12d", idx, 0)), 0) //nolint:errcheck
@@ -302,12 +313,28 @@ func ParentMain(d Driver, a *Args) int {
 	ch := make(chan wres, workers)
 	for i := 0; i < workers; i++ {
 		go func(i int) {
-			cmd := exec.Command(self, "-prop", a.Prop, "-tier", a.Tier, "-seed", strconv.FormatUint(a.Seed, 10),
-				"-workers", strconv.Itoa(workers), "-worker", strconv.Itoa(i), "-outdir", a.OutDir,
-				"-corpus", a.Corpus, "-limit", strconv.Itoa(a.Limit), "-scratch", a.Scratch)
-			cmd.Env = append(os.Environ(), "GOMAXPROCS=1")
-			out, err := runWithWatchdog(cmd, filepath.Join(a.OutDir, fmt.Sprintf("w%d.progress", i)))
-			ch <- wres{i, err, out}
+			skip := ""
+			for attempt := 0; ; attempt++ {
+				cmd := exec.Command(self, "-prop", a.Prop, "-tier", a.Tier, "-seed", strconv.FormatUint(a.Seed, 10),
+					"-workers", strconv.Itoa(workers), "-worker", strconv.Itoa(i), "-outdir", a.OutDir,
+					"-corpus", a.Corpus, "-limit", strconv.Itoa(a.Limit), "-scratch", a.Scratch, "-skip", skip)
+				cmd.Env = append(os.Environ(), "GOMAXPROCS=1")
+				progress := filepath.Join(a.OutDir, fmt.Sprintf("w%d.progress", i))
+				out, err := runWithWatchdog(cmd, progress)
+				if err != nil && err != errWatchdog && attempt < 4 &&
+					(strings.Contains(string(out), "out of memory") || strings.Contains(string(out), "cannot allocate memory")) {
+					// resource exhaustion inside the fence (ulimit -v) is not a verdict about
+					// the property: run this worker's slice again without the item in flight
+					pb, _ := os.ReadFile(progress)
+					if f := strings.Fields(string(pb)); len(f) > 0 {
+						fmt.Fprintf(os.Stderr, "check: worker %d ran out of memory at item %s (resource fence); item skipped, slice re-run\n", i, f[0])
+						skip += f[0] + ","
+						continue
+					}
+				}
+				ch <- wres{i, err, out}
+				return
+			}
 		}(i)
 	}
 	total := newStats()
